@@ -203,8 +203,11 @@ func judgeParse(c *Ctx, k parseCase) {
 		if g.Cmp(v) == 0 || (v.Sign() == 0 && got == def) {
 			return
 		}
-		cls := "out-of-range-" + field + "-wrapped"
-		r.Violate("C16|ParseOTPAuthURL|"+cls+"|", "ParseOTPAuthURL returns a wrapped or truncated "+field+" instead of failing", "parse", k, "failure or exactly "+text, fmt.Sprint(got))
+		cls, what := "out-of-range-"+field+"-wrapped", "ParseOTPAuthURL returns a wrapped or truncated "+field+" instead of failing"
+		if got == def {
+			cls, what = field+"-parameter-silently-ignored", "ParseOTPAuthURL reports the default "+field+" although the URL writes another number (the parameter was dropped without an error)"
+		}
+		r.Violate("C16|ParseOTPAuthURL|"+cls+"|", what, "parse", k, "failure or exactly "+text, fmt.Sprint(got))
 	}
 	if k.HasDigits {
 		check("digits", k.DigitsText, uint64(back.Digits), 6)
@@ -331,6 +334,15 @@ func c16ParseCases(c *Ctx, emit func(parseCase)) {
 	for _, typ := range []string{"totp", "hotp", "TOTP", "Totp", "hOtP", "HOTP"} {
 		emit(parseCase{Text: "otpauth://" + typ + "/Issuer:acc?secret=JBSWY3DPEHPK3PXP&issuer=Issuer", MustParse: true, HasDigits: true, HasPeriod: true})
 		emit(parseCase{Text: "otpauth://" + typ + "/Issuer:acc?secret=JBSWY3DPEHPK3PXP&issuer=Issuer&digits=8&period=60&algorithm=sha256", MustParse: true, HasDigits: true, HasPeriod: true, DigitsText: "8", PeriodText: "60"})
+	}
+	// the number followed or preceded by something that makes the pair (or the whole query) malformed for a strict
+	// query parser: the parse may fail, or read the number written - it must not silently report another number
+	for _, n := range []string{"8", "7", "10", "60", "45", "300", "255", "256", "4294967302", "-5", "1"} {
+		for _, junk := range [][2]string{{"", ";x=1"}, {"", "%"}, {"", "%zz"}, {"", "%2"}, {"x=1;", ""}, {"%zz=1;", ""}} {
+			emit(parseCase{Text: "otpauth://totp/I:a?secret=AAAA&" + junk[0] + "digits=" + n + junk[1], DigitsText: n, HasDigits: true})
+			emit(parseCase{Text: "otpauth://totp/I:a?secret=AAAA&" + junk[0] + "period=" + n + junk[1], PeriodText: n, HasPeriod: true})
+			emit(parseCase{Text: "otpauth://hotp/I:a?" + junk[0] + "digits=" + n + junk[1] + "&secret=AAAA", DigitsText: n, HasDigits: true})
+		}
 	}
 	for _, n := range nums {
 		q := url.QueryEscape(n)
